@@ -3,6 +3,7 @@ package deep
 import (
 	"bytes"
 	"fmt"
+	"math/rand"
 	"testing"
 
 	sch "github.com/parsyl/parquet/schema"
@@ -108,5 +109,140 @@ func TestBoundedC02(t *testing.T) {
 				}()
 			}
 		}
+	}
+}
+
+func randomDeeps(n int, seed int64) []Deep {
+	rng := rand.New(rand.NewSource(seed))
+	out := make([]Deep, n)
+	for i := range out {
+		fcheck.RandomRecord(&out[i], rng)
+	}
+	return out
+}
+
+func diffColumns(got, want map[string][]fcheck.Entry) string {
+	for k, w := range want {
+		g := got[k]
+		if len(g) != len(w) {
+			return fmt.Sprintf("column %s: %d entries in the file, canonical striping has %d", k, len(g), len(w))
+		}
+		for i := range w {
+			if g[i].Rep != w[i].Rep || g[i].Def != w[i].Def || !bytes.Equal(g[i].Val, w[i].Val) {
+				return fmt.Sprintf("column %s entry %d: file has (r=%d d=%d v=%x), canonical striping (r=%d d=%d v=%x)", k, i, g[i].Rep, g[i].Def, g[i].Val, w[i].Rep, w[i].Def, w[i].Val)
+			}
+		}
+	}
+	if len(got) != len(want) {
+		return fmt.Sprintf("%d columns in the file, %d in the schema", len(got), len(want))
+	}
+	return ""
+}
+
+func writeDeeps(t *testing.T, ds []Deep, ps int, batches []int, codec func(*ParquetWriter) error) []byte {
+	var buf bytes.Buffer
+	w, err := NewParquetWriter(&buf, MaxPageSize(ps), codec)
+	if err != nil {
+		t.Fatal(err)
+	}
+	i := 0
+	for _, b := range batches {
+		k := 0
+		for ; k < b && i < len(ds); k++ {
+			w.Add(ds[i])
+			i++
+		}
+		if k > 0 {
+			if err := w.Write(); err != nil {
+				t.Fatal(err)
+			}
+		}
+	}
+	if err := w.Close(); err != nil {
+		t.Fatal(err)
+	}
+	return buf.Bytes()
+}
+
+var deepCodecs = map[string]func(*ParquetWriter) error{"uncompressed": Uncompressed, "snappy": Snappy, "gzip": Gzip}
+
+func TestBoundedC03(t *testing.T) {
+	for round := 0; round < 24; round++ {
+		n := []int{1, 2, 3, 7, 20, 60}[round%6]
+		ds := randomDeeps(n, int64(500+round))
+		cname := []string{"uncompressed", "snappy", "gzip"}[round%3]
+		ps := []int{1, 2, 5, 1000}[round%4]
+		func() {
+			defer func() {
+				if r := recover(); r != nil {
+					t.Errorf("REPLAY-FAIL C03 shape=Deep seed=%d records=%d: panic: %v", 500+round, n, r)
+				}
+			}()
+			file := writeDeeps(t, ds, ps, []int{n/2 + 1, n}, deepCodecs[cname])
+			got, err := fcheck.ColumnsOf(file, deepLeaves)
+			if err != nil {
+				t.Errorf("REPLAY-FAIL C03 shape=Deep seed=%d records=%d: columns not decodable: %v", 500+round, n, err)
+				return
+			}
+			want := map[string][]fcheck.Entry{}
+			for _, d := range ds {
+				fcheck.Stripe(d, want)
+			}
+			if d := diffColumns(got, want); d != "" {
+				t.Errorf("REPLAY-FAIL C03 shape=Deep seed=%d records=%d page=%d: %s", 500+round, n, ps, d)
+			}
+		}()
+	}
+}
+
+func TestBoundedC01(t *testing.T) {
+	for round := 0; round < 30; round++ {
+		n := []int{0, 1, 2, 5, 9, 33, 90}[round%7]
+		ds := randomDeeps(n, int64(700+round))
+		cname := []string{"uncompressed", "snappy", "gzip"}[round%3]
+		ps := []int{1, 2, 3, 7, 1000}[round%5]
+		batches := [][]int{{n}, {n / 2, n}, {1, n / 3, n}}[round%3]
+		fail := func(f string, a ...interface{}) {
+			t.Errorf("REPLAY-FAIL C01 shape=Deep seed=%d records=%d page=%d codec=%s batches=%v: %s", 700+round, n, ps, cname, batches, fmt.Sprintf(f, a...))
+		}
+		func() {
+			defer func() {
+				if r := recover(); r != nil {
+					fail("panic: %v", r)
+				}
+			}()
+			file := writeDeeps(t, ds, ps, batches, deepCodecs[cname])
+			pr, err := NewParquetReader(bytes.NewReader(file))
+			if err != nil {
+				fail("NewParquetReader: %v", err)
+				return
+			}
+			if pr.Rows() != int64(n) {
+				fail("Rows()=%d, %d records written", pr.Rows(), n)
+			}
+			var got []*Deep
+			for pr.Next() {
+				x := new(Deep)
+				pr.Scan(x)
+				got = append(got, x)
+			}
+			if pr.Error() != nil {
+				fail("Error()=%v", pr.Error())
+				return
+			}
+			if len(got) != n {
+				fail("Next() true %d times, %d records written", len(got), n)
+				return
+			}
+			for k := range got {
+				a, b := map[string][]fcheck.Entry{}, map[string][]fcheck.Entry{}
+				fcheck.Stripe(*got[k], a)
+				fcheck.Stripe(ds[k], b)
+				if d := diffColumns(a, b); d != "" {
+					fail("record %d differs after the round trip: %s", k, d)
+					return
+				}
+			}
+		}()
 	}
 }
